@@ -148,6 +148,9 @@ def _build0(d, maxdim):
     args = [['r', rng(*p)] for p in parts]
     for _ in range(d.pick(4)):
         args.append(['n', d.choice([5, -3, 2.5, 0, 100, 7])])
+    if d.pick(5) == 0:
+        # the SAME range (or scalar) named twice in one call
+        args.append(list(args[d.pick(len(args))]))
     # permutation of the argument list by rotation + optional reversal
     rot = d.pick(len(args))
     args = args[rot:] + args[:rot]
@@ -350,7 +353,10 @@ def _judge(case):
                      [mn, av, mx])
     whole = lib.evaluate(model, F + 'XFA6', ev)
     parts = lib.evaluate(model, F + 'XFA7', ev)
-    if not close(whole, parts, rel=1e-12):
+    rngs = [tuple(a) for a in args if a[0] == 'r']
+    if len(set(rngs)) < len(rngs):
+        pass        # a range named twice: the parts no longer tile the whole
+    elif not close(whole, parts, rel=1e-12):
         res.fail('sum-additive', whole, parts, cells[F + 'XFA7'])
     # permutation of contents within the rectangle (single model, new cells)
     if case.get('shuffle'):
